@@ -388,4 +388,6 @@ def check(case):
     return res
 
 
-run, replay = cm.make_api(globals())
+from oracles._b_helpers import scoped_api  # noqa: E402
+
+run, replay = scoped_api(globals(), "c09run_")
